@@ -64,6 +64,8 @@ type IfaceV struct {
 	pmemo    map[string]*payloadMemo
 	Name     string
 	Wrapped  []*IfaceV
+	Bits     *Term // BV64: bit pattern of a scalar payload (low bits), see ifaceBits
+	Str      *Term // Int: string payload id
 }
 
 type FuncV struct {
@@ -315,6 +317,14 @@ func leafPaths(t types.Type) (out []leafInfo, ok bool) {
 		case *types.Struct:
 			for i := 0; i < u.NumFields(); i++ {
 				rec(u.Field(i).Type(), append(p, i))
+			}
+		case *types.Interface:
+			// an interface value inside an array element is kept as four scalar leaves
+			for _, suf := range []struct {
+				s    string
+				sort Sort
+			}{{"#tag", SInt}, {"#id", SInt}, {"#bits", BV(64)}, {"#str", SInt}} {
+				out = append(out, leafInfo{Path: append([]int(nil), p...), Key: pathKey(p) + suf.s, T: t, Sort: suf.sort})
 			}
 		default:
 			ok = false
